@@ -198,7 +198,13 @@ def oracle(ctx):
                 if rnd.random() < 0.35:
                     # a second documented key WITH a value beside the key under test: any key of the unit's tables (independent of each
                     # other by construction), or — for the user-namespace options, which podman takes side by side — another one of them
-                    tbl = [(k2, kd2) for k2, kd2, _ in key_specs(ty) if kd2 in ('str', 'all', 'bool') and k2 != key and k2 + '=' not in ''.join(bl + extra)]
+                    tbl = [(k2, kd2) for k2, kd2, sp2 in key_specs(ty) if (kd2 in ('str', 'all', 'bool') or (kd2 == 'special' and isinstance(sp2, tuple)))
+                           and k2 != key and k2 + '=' not in ''.join(bl + extra)]
+                    # (the on/off keys written by hand are companions too, switched on and — explicitly — off: ReadOnly=no beside VolatileTmp=yes.
+                    #  ReadOnly=yes is left out: a read-only container gets no tmpfs of its own for /tmp, the one documented interplay)
+                    if key == 'VolatileTmp' and rnd.random() < 0.6 and 'ReadOnly=' not in ''.join(bl + extra):
+                        extra = extra + ['ReadOnly=' + rnd.choice(['no', 'false', 'off', '0'])]
+                        tbl = []
                     idmap = [('UserNS', 'keep-id'), ('UIDMap', '0:10000:10'), ('GIDMap', '0:20000:10'), ('SubUIDMap', 'subu'), ('SubGIDMap', 'subg')]
                     sup = ctx.tables['supported'][G.SUP[ty]]
                     if key in dict(idmap) and rnd.random() < 0.7 and [p for p in idmap if p[0] != key and p[0] in sup]:
@@ -206,8 +212,19 @@ def oracle(ctx):
                         extra = extra + [f'{k2}={v2}']
                     elif tbl:
                         k2, kd2 = rnd.choice(tbl)
-                        extra = extra + [k2 + '=' + ('true' if kd2 == 'bool' else 'companion')]
+                        onoff = kd2 == 'bool' or kd2 == 'special'
+                        if onoff and {key, k2} == {'ReadOnly', 'VolatileTmp'}:
+                            extra = extra + [k2 + '=false']
+                        else:
+                            extra = extra + [k2 + '=' + (rnd.choice(['true', 'false', 'no', 'yes']) if onoff else 'companion')]
                 cases.append((ty, key, kind, spec, v, bl + extra))
+    # directed: every hand-written on/off key of a container beside every other one switched explicitly off (what "off" adds is in the base)
+    onoff_keys = [(k, kd, sp) for k, kd, sp in key_specs('container') if kd == 'special' and isinstance(sp, tuple)]
+    for k, kd, sp in onoff_keys:
+        for k2, _, _ in onoff_keys:
+            if k2 != k:
+                for off in (['no', 'false', 'off', '0'] if ctx.thorough or {k, k2} == {'ReadOnly', 'VolatileTmp'} else [rnd.choice(['no', 'false', 'off', '0'])]):
+                    cases.append(('container', k, kd, sp, 'ON', list(G.BASE['container']) + [f'{k2}={off}']))
     base_ops, new_ops, metas = [], [], []
     for ty, key, kind, spec, v, lines in cases:
         sec = '[' + G.SEC[ty] + ']\n'
@@ -224,7 +241,7 @@ def oracle(ctx):
             line = None
             exp_v = v
         if kind == 'special' and isinstance(spec, tuple):
-            val = rnd.choice(['true', 'false', 'yes', 'no', '1', '0', 'on', 'off'])
+            val = rnd.choice(['true', 'yes', '1', 'on']) if v == 'ON' else rnd.choice(['true', 'false', 'yes', 'no', '1', '0', 'on', 'off'])
             exp_v = val in ('true', 'yes', '1', 'on')
             line = f'{key}={val}'
         if kind == 'special' and not callable(spec) and not isinstance(spec, tuple):
